@@ -86,6 +86,10 @@ def items(tier, seed):
     for i, it in enumerate(spec_items(tier)):
         if i % 3 == 2:
             it = build.with_ns_rewards(it)
+        if i % 7 == 4 and it[1] <= 2:
+            # a listed outcome with probability 0 (existing state / a state nothing leads to / an entry of the initial
+            # distribution) is no outcome: it must not become part of the search
+            it = build.with_zero_entry(it, ('outside', 'inside', 'zero_init')[(i // 7 + seed) % 3])[0]
         flags = [(i + seed) % 4] if tier == 'quick' else [(i + seed) % 4, (i + seed + 1 + (i // 4) % 3) % 4]
         yield (it, (i + seed) % len(SLAB), tuple(sorted(set(flags))))
     for i, it in enumerate(corridors(tier)):
@@ -138,7 +142,7 @@ def in_scope(spec):
     if spec.gamma < 1:
         return True
     # undiscounted: every deterministic policy reaches an (explicitly) absorbing state with probability 1; rewards of either sign
-    return refmdp.all_proper(spec, explicit_only=True)
+    return refmdp.all_proper(spec, explicit_only=True, only_reachable=True)
 
 
 def fingerprint(res, mdp, spec):
@@ -330,7 +334,11 @@ def check(item, tier):
                 try:
                     with patched_random(ex):
                         ex.explore(body, on_exec)
-                except (np.linalg.LinAlgError, AssertionError) as e:
+                except (np.linalg.LinAlgError, AssertionError, KeyError, IndexError, TypeError, ValueError, AttributeError) as e:
+                    import traceback
+                    if not isinstance(e, (np.linalg.LinAlgError, AssertionError)) and \
+                            '/msdm/' not in traceback.format_tb(e.__traceback__)[-1]:
+                        raise       # not raised by the library: a harness problem
                     r.violation('exception', dict(ctx, error=repr(e)[:300]), item)
                     continue
                 r.count('states', ex.states)
